@@ -151,7 +151,13 @@ class Lib:
                         fname = n.func.attr
                     if fname in ("next", "iter", "anext", "aiter"):
                         ghosts.add("inner")
-                    # callee contracts: add their modifies
+                    # callee contracts: add their modifies (not for methods
+                    # of local containers / opaque values)
+                    if isinstance(n.func, ast.Attribute) and \
+                            isinstance(n.func.value, ast.Name) and \
+                            isinstance(st.locals.get(n.func.value.id),
+                                       (VList, VDict, VU, VInt, VTuple)):
+                        continue
                     for fc in eng.reg.funcs.values():
                         if fc.method_name == fname:
                             for m in fc.modifies:
@@ -228,12 +234,51 @@ class Lib:
             return r
         return VModule(d)
 
-    def annotate(self, st, v, ann):
-        """Use a local annotation to give an untyped empty container a shape
-        (sorts only; never used for facts about values)."""
+    def annotate(self, st, v, node):
+        """Give an untyped empty container the shape declared for the local
+        in the sidecar (`locals_`); sorts only, never facts about values."""
         eng = self.eng
         fc = eng.cur
+        if isinstance(node, ast.Name) and node.id in fc.locals:
+            shape = fc.locals[node.id]
+            if isinstance(v, VDict) and v.val is None and \
+                    shape.startswith("dict:"):
+                vs = shape[5:]
+                val = st.fresh("dval", z3.ArraySort(U, sort_of_shape(vs)))
+                return VDict(v.dom, val, vs, lid=v.lid)
+            if isinstance(v, VList) and getattr(v, "untyped", False) and \
+                    shape.startswith("list:"):
+                return eng.empty_list(st, shape[5:])
         return v
+
+    def note_append(self, st, old, new, t):
+        sm = self.stream_model()
+        if sort_of_shape(old.eshape) == U:
+            st.assume(sm.LSEQU(new.arr, new.n) ==
+                      sm.CAT(sm.seq_of_list(st, old), sm.UNIT(t)))
+        elif sort_of_shape(old.eshape) == IntS and old.eshape != "int":
+            st.assume(sm.LSEQR(new.arr, new.n) ==
+                      sm.CAT(sm.seq_of_list(st, old), sm.UNIT(sm.BOX(t))))
+
+    def note_slice(self, st, lst, new, lo, hi):
+        from .engine import _as_int
+        sm = self.stream_model()
+        if lst.eshape == "int" or lst.eshape == "bool":
+            return
+        if lo is None or isinstance(lo, VNone):
+            if hi is None or isinstance(hi, VNone):
+                return
+            h = hi.val if isinstance(hi, VOpt) else hi
+            ht = _as_int(h)
+            cond = ht >= 0
+            if isinstance(hi, VOpt):
+                cond = z3.And(cond, z3.Not(hi.isnone))
+            st.assume(z3.Implies(cond, sm.seq_of_list_raw(new) ==
+                                 sm.TAKE(sm.seq_of_list_raw(lst), ht)))
+        elif hi is None or isinstance(hi, VNone):
+            lt = _as_int(lo)
+            st.assume(z3.Implies(lt >= 0, sm.seq_of_list_raw(new) ==
+                                 sm.DROP(sm.seq_of_list_raw(lst), lt)))
 
     # ------------------------------------------------------------------
     # operators delegated from the engine
@@ -749,6 +794,19 @@ class Lib:
         if isinstance(v, VSpecTerm):
             return v
         raise self.E.Unsupported("seq() of this value")
+
+    def sp_ite_seq(self, st, node):
+        eng = self.eng
+        c = eng.truthy(st, eng.eval(st, node.args[0]))
+        a = eng.eval(st, node.args[1])
+        b = eng.eval(st, node.args[2])
+        return type(a)(z3.If(c, a.t, b.t))
+
+    def sp_optval(self, st, node):
+        v = self.eng.eval(st, node.args[0])
+        if isinstance(v, VOpt):
+            return v.val
+        return v
 
     def sp_EMPTY(self, st, node):
         return VSpecTerm(self.stream_model().EMPTY)
